@@ -56,6 +56,12 @@ def plan(meta, model, placement):
                 return None
             d['poff'] = MID
             d['keep'] = [(MID, MID + PAGE)]
+        elif placement == 'odd':
+            # an address that is aligned for the element type only (shows aligned instructions used by the unaligned API)
+            if mo.aligned or L == 0:
+                return None
+            d['poff'] = MID + 512 + eb
+            d['keep'] = [(MID, MID + PAGE)]
         else:
             return None
     else:
@@ -199,7 +205,7 @@ def replay_cex(prop, meta, cfg, fn_arg_types, rty, model, kind, outroot=None):
     details = {}
     inputs = None
     runs = []
-    for placement in ('end', 'start'):
+    for placement in ('end', 'start', 'odd'):
         pl = plan(meta, model, placement)
         if pl is None:
             continue
